@@ -96,6 +96,7 @@ impl<B> PreparedRequest<B> {
     pub closed spec fn sp_url(&self) -> Url { self.url }
     pub closed spec fn sp_headers(&self) -> HeaderMap { self.headers }
     pub closed spec fn sp_settings(&self) -> BaseSettings { *self.base_settings }
+    pub closed spec fn sp_body(&self) -> B { self.body }
 //@@ fn src/request/mod.rs impl<B>~PreparedRequest<B> method
 //@@ contract
         ensures *res == self.sp_method(),
